@@ -621,13 +621,15 @@ def check_contents(w, st, lab, fail, stats):
 
 
 def digest(w, lab, exc, impl):
+    """strict digest + the same with the sign of zeros dropped (to classify a difference as 'sign of a zero only')"""
     parts = [lab.get("a"), exc, repr(impl), str(w.cur) if w.cur is not None else None]
     if w.cur is not None:
         d = outcome(w.cur._get_dependencies)
         parts.append(sorted(map(str, d.val)) if not d.exc and d.val is not None else str(d))
-    parts.append([repr(w.get(l)) for l in sorted(w.mirror)])
+    parts.append([canon(w.get(l)) for l in sorted(w.mirror)])
     parts.append(outcome(w.m.dump).val)
-    return hashlib.sha1(json.dumps(parts, default=str).encode()).hexdigest()[:12]
+    txt = json.dumps(parts, default=str)
+    return hashlib.sha1(txt.encode()).hexdigest()[:12] + ":" + hashlib.sha1(txt.replace("-0.0", "0.0").replace("-0j", "0j").encode()).hexdigest()[:8]
 
 
 def worker(job, shard, nshards):
